@@ -216,12 +216,23 @@ fn rec_noabort(ev: Ev) {
 
 /// Run one complete execution of `spec` following `script` (then choice 0 everywhere).
 pub fn run_world(spec: &WorldSpec, script: &[u16], script_n: &[u16], strict: bool) -> Exec {
-    let ex = Arc::new(Mutex::new(Exec::new(
-        spec.cfg.clone(),
-        script.to_vec(),
-        script_n.to_vec(),
-        strict,
-    )));
+    run_world_with(spec, script, script_n, strict, None)
+}
+
+/// `guide`: replay a projected history by identity (C13 solo runs) instead of a script.
+pub fn run_world_with(
+    spec: &WorldSpec,
+    script: &[u16],
+    script_n: &[u16],
+    strict: bool,
+    guide: Option<std::collections::VecDeque<GuideRec>>,
+) -> Exec {
+    let guided = guide.is_some();
+    let ex = Arc::new(Mutex::new({
+        let mut e = Exec::new(spec.cfg.clone(), script.to_vec(), script_n.to_vec(), strict);
+        e.guide = guide;
+        e
+    }));
     install(ex.clone());
     nursery::reset();
     let rt = Rc::new(RefCell::new(WorldRt::default()));
@@ -244,6 +255,9 @@ pub fn run_world(spec: &WorldSpec, script: &[u16], script_n: &[u16], strict: boo
     while go && n_ev < e {
         let menu = with(|ex| enabled_events(ex));
         if menu.is_empty() {
+            break;
+        }
+        if guided && with(|ex| ex.guide.as_ref().map(|g| g.is_empty()).unwrap_or(true)) {
             break;
         }
         let r = catch_unwind(AssertUnwindSafe(|| {
